@@ -1,7 +1,9 @@
 """C02 - memoization is effective: one body run per relevant option assignment.
 
 Correspondence: histories over long-lived dataset DAGs (diamonds, overloads, pre-set / default
-options, nocache nodes, effects, with_options derivatives) with exact repeats, repeats with
+options, nocache nodes, effects, with_options derivatives, dependencies pinned by a forced pre-set
+section / scalar below cached consumers, bodies returning None / falsy constants) with exact repeats,
+repeats in which the caller supplies / omits / changes what a forced pre-set overrides, repeats with
 never-mentioned keys added, repeats with the top-level order permuted, relevant changes.
 
 Oracle (implementation only; the model is not consulted): execution counters read off the call
@@ -9,7 +11,9 @@ log of the harness bodies / effects / recording caches:
   O1  per dataset evaluated at the root: among the successful cache-enabled evaluations that see the
       same values under every top-level option name the UNCACHED evaluation looks up (recorded by
       wrapping confectioner's lookups during a cache-disabled evaluation of a fresh copy), at most
-      one runs the body;
+      one runs the body; a caller's entry that a forced pre-set (options= / with_options / forced
+      WithOptions node) overrides at every lookup below it - a scalar or a whole section, supplied,
+      omitted or changed - is not part of that assignment;
   O2  an exact repeat / a repeat with never-mentioned top-level keys / a repeat with the top-level
       order permuted of a successful evaluation runs no body, no callback, no effect of the
       dataset, writes no cache entry, issues no log request (exactly exists+get when keys() of the
@@ -51,6 +55,114 @@ class Gen02(gen.Gen):
             return ("pstep", self.newf(("raise", rng.randint(1, 7))), [])
         return ("pstep", self.newf(("tag",)), [])
 
+    def body_fid(self):
+        """bodies whose RESULT is None or another falsy constant (sink / publish steps kept for their effects):
+        a stored None / 0 / '' / [] / False must be served like any other stored value"""
+        rng = self.rng
+        if rng.random() < 0.07:
+            self.note("const_body")
+            return self.newf(("const", ("j", rng.choice([None, None, None, 0, False, core.lit(""), []]))))
+        return super().body_fid()
+
+    def forced_preset(self):
+        """a dictionary to pin a dataset with: a section (one or both leaves), a scalar, a deep section, and
+        the keys by which a dataset can read what it fixes (the whole entry, or a leaf)"""
+        rng = self.rng
+        r = rng.random()
+        if r < 0.45:
+            return {gen.SEC: {rng.choice([gen.SX, gen.SY]): rng.choice([1, 2, core.lit("a")])}}, [K(gen.SEC), K(gen.SEC), K(gen.SEC, gen.SX), K(gen.SEC, gen.SY)]
+        if r < 0.65:
+            return {gen.SEC: {gen.SX: rng.choice([1, 2]), gen.SY: rng.choice([0, core.lit("b")])}}, [K(gen.SEC), K(gen.SEC), K(gen.SEC, gen.SX)]
+        if r < 0.85:
+            k = rng.choice(gen.FLAT)
+            return {k: rng.choice([1, 2, core.lit("a"), None])}, [K(k)]
+        return {gen.DEEP[0]: {gen.DEEP[1]: {gen.DEEP[2]: rng.choice([1, 2])}}}, [K(gen.DEEP[0]), K(*gen.DEEP[:2]), K(*gen.DEEP)]
+
+    def pinned(self, nxt):
+        """base <- pin (with_options derivative | the dataset's own pre-set options | an explicit forced
+        WithOptions node) <- one cached consumer, or two consumers and a top: what the pin fixes is read whole
+        or by leaf BELOW the pin, so whatever the caller supplies there is overridden.  -> next free id"""
+        rng = self.rng
+        preset, readers = self.forced_preset()
+        kwargs = [("option", rng.choice(readers), ("value", ("j", 0)) if rng.random() < 0.2 else None, None)]
+        if rng.random() < 0.3:
+            kwargs.insert(rng.randint(0, 1), self.leaf())
+        base = nxt
+        self.env[base] = dict(fid=self.body_fid(), kwargs=kwargs)
+        nxt += 1
+        how = rng.random()
+        if how < 0.5:
+            self.env[nxt] = dict(derived=base, how="with_options", preset=preset)
+            pin = ("dataset", nxt)
+            nxt += 1
+        elif how < 0.75:
+            self.env[base]["options"] = preset
+            pin = ("dataset", base)
+        else:
+            pin = ("with", True, preset, ("dataset", base))
+        n_cons = 1 if rng.random() < 0.6 else 2
+        cons = []
+        for _ in range(n_cons):
+            kw = [pin]
+            if rng.random() < 0.4:
+                kw.insert(rng.randint(0, 1), ("option", K(rng.choice(gen.FLAT)), ("value", ("j", 0)), None))
+            self.env[nxt] = dict(fid=self.body_fid(), kwargs=kw)
+            if rng.random() < 0.5:
+                self.env[nxt]["effects"] = [("pstep", self.newf(("tag",)), [])]
+            cons.append(nxt)
+            nxt += 1
+        if n_cons == 2:
+            self.env[nxt] = dict(fid=self.body_fid(), kwargs=[("dataset", c) for c in cons])
+            nxt += 1
+        self.note("pinned")
+        return nxt
+
+    def forced_presets_of(self, roots):
+        """every forced pre-set dictionary of the scenario (datasets' options, with_options derivatives,
+        forced WithOptions nodes)"""
+        out = []
+        for d in self.env.values():
+            if d.get("options"):
+                out.append(d["options"])
+            if d.get("derived") is not None and d["how"] == "with_options":
+                out.append(d["preset"])
+        items = [roots] + [[d.get("kwargs", []), d.get("dispatch"), [im for _, im in d.get("overloads", [])]] for d in self.env.values()]
+        for t in cp.sub_exprs(items):
+            if t and t[0] == "with" and t[1]:
+                out.append(t[2])
+        return out
+
+    def shadow_variant(self, base, preset):
+        """the dictionary with the caller's entries under the names a forced pre-set mentions rewritten: dropped,
+        replaced by the pre-set shape with other leaf values, replaced by the pre-set itself, or with exactly
+        the overridden leaves changed (other leaves kept)"""
+        rng = self.rng
+
+        def releaf(p):
+            if isinstance(p, dict):
+                return {k: releaf(v) for k, v in p.items()}
+            return rng.choice([0, 1, 2, 5, 7, core.lit("a"), core.lit("z"), None])
+
+        def overwrite(cur, p):
+            if isinstance(p, dict):
+                out = dict(cur) if isinstance(cur, dict) else {}
+                for k, v in p.items():
+                    out[k] = overwrite(out.get(k), v)
+                return out
+            return releaf(p)
+        o = {k: (dict(v) if isinstance(v, dict) else v) for k, v in base.items()}
+        for k, p in preset.items():
+            r = rng.random()
+            if r < 0.25:
+                o.pop(k, None)
+            elif r < 0.55:
+                o[k] = releaf(p)
+            elif r < 0.7:
+                o[k] = {a: (dict(b) if isinstance(b, dict) else b) for a, b in p.items()} if isinstance(p, dict) else p
+            else:
+                o[k] = overwrite(o.get(k), p)
+        return o
+
     def decorate(self, d):
         rng = self.rng
         if d.get("derived") is not None:
@@ -82,6 +194,7 @@ class Gen02(gen.Gen):
         for i in range(1, nds + 1):
             self.dataset(i)
         nxt = nds + 1
+        extra_root = None
         shape = rng.random()
         if shape < 0.45:        # diamond: top <- a, b <- n
             n = rng.choice(list(self.env))
@@ -111,6 +224,22 @@ class Gen02(gen.Gen):
             self.env[nxt] = dict(derived=b, how=rng.choice(["with_options", "with_default_options"]), preset=preset)
             nxt += 1
             self.note("derived_def")
+            if rng.random() < 0.5 and not self.env[b].get("dispatch"):
+                # the derivative of a dataset that has a callback AND effects: both belong to the derivative too
+                self.env[b].setdefault("callback", ("pstep", self.newf(("tag",)), []))
+                if not self.env[b].get("effects"):
+                    self.env[b]["effects"] = [("pstep", self.newf(("tag",)), [])]
+                extra_root = ("dataset", nxt - 1)
+        concrete = [j for j in self.env if self.env[j].get("derived") is None and not self.env[j].get("abstract")]
+        if concrete and rng.random() < 0.12:  # a sink: some dataset of the DAG returns None and is kept for its effect
+            n = rng.choice(concrete)
+            self.env[n]["fid"] = self.newf(("const", ("j", None)))
+            self.env[n].pop("callback", None)
+            self.env[n]["effects"] = [("pstep", self.newf(("tag",)), [])]
+            self.env[n].pop("effects_disabled", None)
+            self.note("sink")
+        if rng.random() < 0.3:   # a pinned dependency below cached consumers (becomes the main root)
+            nxt = self.pinned(nxt)
         if self.f["with_presets"] and rng.random() < 0.3:     # a scalar pre-set on a key some dataset reads
             for i, d in self.env.items():
                 flat = [e[1][0][1] for e in d.get("kwargs", []) if e[0] == "option" and len(e[1]) == 1 and e[1][0][1] in gen.FLAT]
@@ -122,6 +251,8 @@ class Gen02(gen.Gen):
         ids = list(self.env)
         roots = [("dataset", max(ids))]
         others = [i for i in ids if i != max(ids)]
+        if extra_root is not None and extra_root not in roots:
+            roots.append(extra_root)
         for _ in range(rng.randint(1, 2)):
             r = rng.random()
             if r < 0.75 and others:
@@ -144,6 +275,7 @@ class Gen02(gen.Gen):
                 rich[gen.LST] = [1, 2]
             pool = [rich, rich] + pool
         ops, meta = [], []
+        forced = self.forced_presets_of(roots)
         for t in range(n_ops):
             r = rng.random()
             prior = [j for j, m in enumerate(ops) if m[0] == "evaluate"]
@@ -158,7 +290,12 @@ class Gen02(gen.Gen):
             else:
                 src = rng.choice(prior)
                 idx, base = ops[src][1], ops[src][4]
-                if r < 0.50:
+                if forced and rng.random() < 0.3:
+                    # what a forced pre-set overrides is supplied / omitted / changed by the caller
+                    o, kind = self.shadow_variant(base, rng.choice(forced)), "shadow"
+                    if rng.random() < 0.3:
+                        o[rng.choice(NEVER)] = rng.choice([0, 1, core.lit("z")])
+                elif r < 0.50:
                     o, kind = dict(base), "repeat"
                 elif r < 0.68:
                     items = list(base.items())
@@ -192,7 +329,7 @@ def generate(ctx, n):
     for i in range(n):
         g = Gen02(ctx.rng, with_alloptions=False, with_map=(i % 3 == 0), preset_on_ds=0.25 if i % 2 else 0.0,
                   with_templates=(i % 4 != 1))
-        scns.append(g.scenario02(n_ops=14, switches=(i % 6 == 0)))
+        scns.append(g.scenario02(n_ops=16, switches=(i % 6 == 0)))
     return scns
 
 
@@ -292,10 +429,21 @@ def reliable(scn, i):
     if d.get("overloads") or d.get("abstract") or d.get("dispatch") is not None:
         return False
     f = own_fids(env, i)
-    for fid in f["body"] + f["callback"] + f["effects"]:
+    for fid in f["body"]:       # the body tags its arguments or returns a constant (None, falsy values, ...)
+        if scn["ftable"].get(fid, ("tag",))[0] not in ("tag", "const"):
+            return False
+    for fid in f["callback"] + f["effects"]:
         if scn["ftable"].get(fid, ("tag",))[0] != "tag":
             return False
     return all(not e[2] for e in d.get("effects", []) or [])    # effect callbacks take no options
+
+
+def body_value(scn, b, token):
+    """the rendered value of one execution of body b, read off its call token"""
+    desc = scn["ftable"].get(b, ("tag",))
+    if desc[0] == "const":
+        return core.show(core.py_value(desc[1]))
+    return "t%d(%s" % (b, token[len(f"c{b}("):])
 
 
 def cache_enabled(op):
@@ -357,11 +505,43 @@ def read_recorder(rec):
              (lt, "get_dotted_key", lt.get_dotted_key), (lo, "resolve", lo.resolve), (ltpl, "resolve", ltpl.resolve)]
     depth = [0]
     orig_get, orig_exists, orig_resolve = ct.get_dotted_key, ct.dotted_key_exists, ct.resolve
+    # the WithOptions layers (pre-set / default dictionaries of datasets, derivatives, explicit nodes) whose
+    # evaluate() is on the Python stack when a lookup happens: [(forced?, that layer's dictionary)]
+    layers = []
+    orig_wo_evaluate = lo.WithOptions.evaluate
 
-    def note(kind, dotted, outcome):
+    def wo_evaluate(self, options):
+        layers.append((bool(self.force), self.options))
+        try:
+            return orig_wo_evaluate(self, options)
+        finally:
+            layers.pop()
+
+    def fixed_by_forced_layer(kind, dotted, answer):
+        """the lookup was made below exactly ONE pre-set layer that mentions the top-level name, that layer
+        is forced, and the answer is the very value the layer fixes for the looked-up key: whatever the
+        caller supplies under that key is overridden, i.e. cannot be observed by this lookup"""
+        name = str(dotted).split(".", 1)[0]
+        mention = [(f, p) for f, p in layers if isinstance(p, dict) and name in p]
+        if len(mention) != 1 or not mention[0][0]:
+            return False
+        found, v = plain_lookup(str(dotted), mention[0][1])
+        if not found:
+            return False
+        if kind == "exists":
+            return answer is True
+        try:
+            return bool(v == answer) and repr(v) == repr(answer)
+        except Exception:
+            return False
+
+    def note(kind, dotted, outcome, fixed=False):
         name = str(dotted).split(".", 1)[0]
         rec["names"].add(name)
         rec["seen"].add((name, kind, str(dotted), outcome))
+        rec["trace"].append((name, kind, str(dotted), outcome))     # in evaluation order (one entry per lookup SITE visit)
+        if not fixed:
+            rec.setdefault("open", set()).add(name)     # some lookup under the name may observe the caller's entry
 
     def get(dotted, options):
         top = depth[0] == 0
@@ -369,7 +549,7 @@ def read_recorder(rec):
         try:
             r = orig_get(dotted, options)
             if top:
-                note("get", dotted, repr(r))
+                note("get", dotted, repr(r), fixed_by_forced_layer("get", dotted, r))
             return r
         except Exception as e:
             if top:
@@ -384,7 +564,7 @@ def read_recorder(rec):
         try:
             r = orig_exists(dotted, options)
             if top:
-                note("exists", dotted, repr(r))
+                note("exists", dotted, repr(r), fixed_by_forced_layer("exists", dotted, r))
             return r
         finally:
             depth[0] -= 1
@@ -396,16 +576,33 @@ def read_recorder(rec):
 
     for mod, name, _ in saved:
         setattr(mod, name, {"get_dotted_key": get, "dotted_key_exists": exists, "resolve": resolve}[name])
+    lo.WithOptions.evaluate = wo_evaluate
     try:
         yield rec
     finally:
+        lo.WithOptions.evaluate = orig_wo_evaluate
         for mod, name, val in saved:
             setattr(mod, name, val)
 
 
+def plain_lookup(dotted, d):
+    """(found, value) of a dotted key in a plain JSON dictionary; written here, not confectioner's"""
+    cur = d
+    for part in dotted.split("."):
+        if isinstance(cur, dict):
+            if part not in cur:
+                return False, None
+            cur = cur[part]
+        elif isinstance(cur, list) and part.lstrip("-").isdigit() and -len(cur) <= int(part) < len(cur):
+            cur = cur[int(part)]
+        else:
+            return False, None
+    return True, cur
+
+
 def looked_up(scn, idx, options):
     """top-level option names the cache-free evaluation of a freshly built copy looks up"""
-    rec = dict(names=set(), seen=set(), all=False)
+    rec = dict(names=set(), seen=set(), trace=[], all=False)
     with read_recorder(rec):
         line = cp.fresh_eval(scn, idx, options)
     return rec, line
@@ -471,8 +668,11 @@ def preset_names(scn):
 def assignment(scn, op, memo):
     """the class of an evaluation for O1: the dataset whose cache is used and, for every top-level
     option name the cache-free evaluation of a fresh copy looks up, the answers those lookups got
-    (so a value fixed by a pre-set scalar counts as the same assignment whatever the caller supplies);
-    under names where sections are merged: what the caller supplies plus the sections it is merged with"""
+    in evaluation order (so a value fixed by a pre-set scalar counts as the same assignment whatever the
+    caller supplies, and the same key read at two sites with the answers swapped does not);
+    under a name where EVERY lookup was answered by the value a forced pre-set layer fixes for the looked-up
+    key (scalar or whole section: the caller's entry is overridden wherever it could be read): the answers only;
+    under the other names where sections are merged: what the caller supplies plus the sections it is merged with"""
     env = scn["env"]
     m, idx, cc, lc, o = op
     key = (idx, repr(o))
@@ -488,14 +688,19 @@ def assignment(scn, op, memo):
     names = (set(po) | set(forced) | set(defaults)) if rec["all"] else rec["names"]
     sig = []
     for n in sorted(names):
-        if rec["all"] or n in memo["sections"]:
+        if not rec["all"] and n in memo["preset_names"] and n not in rec.get("open", ()):
+            # EVERY lookup under this name was answered with the very value a forced pre-set layer fixes for
+            # the looked-up key: the caller's entry under it (supplied or not, whatever its leaves) is
+            # overridden everywhere it could be read -> not part of the assignment the dataset depends on
+            sig.append((n, "fixed by forced pre-sets", tuple(x[1:] for x in rec["trace"] if x[0] == n)))
+        elif rec["all"] or n in memo["sections"]:
             sig.append((n, "caller", repr(po[n]) if n in po else "<absent>",
                         repr(forced.get(n, "<none>")), repr(defaults.get(n, "<none>"))))
         else:
             # under a name some pre-set mentions, whether the (overlaid) caller dictionary supplies it
             # decides whether a nested WithOptions filter keeps the key: part of the assignment
             extra = (n in po, repr(forced.get(n, "<none>")), repr(defaults.get(n, "<none>"))) if n in memo["preset_names"] else None
-            sig.append((n, "answers", tuple(sorted(x[1:] for x in rec["seen"] if x[0] == n)), extra))
+            sig.append((n, "answers", tuple(x[1:] for x in rec["trace"] if x[0] == n), extra))
     return (base_of(env, root), tuple(sig))
 
 
@@ -509,7 +714,7 @@ def oracle(scn, il=None):
         il = core.run_impl(scn)
     toks = [tokens_of(l) for l in il]
     ok = [cp.split(l)[0].startswith("ok:") for l in il]
-    fails, checks = [], dict(O1=0, O2=0, O3=0, O4=0, O5=0)
+    fails, checks = [], dict(O1=0, O2=0, O3=0, O4=0, O5=0, O1_overridden_entries=0)
     memo = {}
 
     def root_ds(j):
@@ -534,6 +739,8 @@ def oracle(scn, il=None):
         except Exception as e:  # the reference evaluation itself broke: not a statement about the cache
             continue
         checks["O1"] += 1
+        if any(e[1] == "fixed by forced pre-sets" for e in cls[1]):
+            checks["O1_overridden_entries"] += 1     # (a sub-count of O1, not a further evaluation)
         if ran:
             if cls in classes:
                 fails.append(dict(oracle="O1", desc="the dataset's body ran again under the same assignment of the options it depends on",
@@ -637,7 +844,7 @@ def oracle(scn, il=None):
                     fails.append(dict(oracle="O4", desc=f"effect {e} of dataset {i} ran {n} times for {len(positions)} body executions"
                                                         + ("" if on else " although effects are disabled"), op_index=j, dataset=i))
             for t in positions:
-                val = "t%d(%s" % (b, T[t][len(f"c{b}("):])
+                val = body_value(scn, b, T[t])
                 seq = []
                 if f["callback"]:
                     seq.append(f"c{f['callback'][0]}({val})")
@@ -690,8 +897,10 @@ def fixed_scenarios():
            3: dict(derived=1, how="with_default_options", preset={NEVER[0]: 2})}
     out.append(("presets+derived", dict(ftable={}, env=env, exprs=[("dataset", 1), ("dataset", 2), ("dataset", 3)],
                                         ops=[ev(0, {A: 1}), ev(0, {A: 2}), ev(0, {}), ev(1, {A: 9}), ev(2, {}), ev(0, {B: 1}), ev(1, {B: 1}),
-                                             ev(2, {B: 1, A: 3}), ev(0, {B: 0})],
-                                        meta=[("fresh", None)] * 9)))
+                                             ev(2, {B: 1, A: 3}), ev(0, {B: 0}),
+                                             # the derivatives run the body themselves (misses): callback and effects follow it
+                                             ev(1, {B: 2}), ev(2, {B: 3, A: 1}), ev(0, {B: 2}), ev(0, {B: 3})],
+                                        meta=[("fresh", None)] * 13)))
     # a key fixed by a dependency's pre-set options does not split the CONSUMER's entries either
     env = {1: _ds(100, [opt(A), opt(B, ("value", ("j", 0)))], options={A: 5}),
            2: _ds(101, [("dataset", 1), opt(Z, ("value", ("j", 0)))]),
@@ -715,13 +924,47 @@ def fixed_scenarios():
                                           meta=[("fresh", None), ("repeat", 0), ("fresh", None), ("repeat", 2), ("fresh", None), ("fresh", None),
                                                 ("fresh", None), ("perm", 6), ("fresh", None), ("fresh", None), ("fresh", None), ("extra", 10),
                                                 ("fresh", None), ("repeat", 12), ("extra", 12)])))
+    # a sink (body returns None, kept for its effect) shared by two consumers, then repeated at the root
+    env = {1: _ds(100, [opt(A)], effects=[("pstep", 110, [])]), 2: _ds(101, [("dataset", 1), opt(A)]),
+           3: _ds(102, [("dataset", 1)]), 4: _ds(103, [("dataset", 2), ("dataset", 3)]),
+           5: _ds(104, [opt(B, ("value", ("j", 0)))], callback=("pstep", 105, []), effects=[("pstep", 111, [])])}
+    ft = {100: ("const", ("j", None)), 104: ("const", ("j", 0))}
+    out.append(("sink diamond", dict(ftable=ft, env=env, exprs=[("dataset", 4), ("dataset", 1), ("dataset", 5)],
+                                     ops=[ev(0, {A: 1}), ev(1, {A: 1}), ev(1, {A: 1, NEVER[0]: 3}), ev(1, {NEVER[1]: 0, A: 1}), ev(0, {A: 2, Z: 1}),
+                                          ev(0, {Z: 1, A: 2}), ev(1, {A: 2}), ev(1, {A: 3}), ev(2, {}), ev(2, {}), ev(2, {B: 0, NEVER[0]: 1})],
+                                     meta=[("fresh", None), ("fresh", None), ("extra", 1), ("perm", 2), ("fresh", None), ("perm", 4),
+                                           ("fresh", None), ("fresh", None), ("fresh", None), ("repeat", 8), ("fresh", None)])))
+    # a dependency pinned by a forced pre-set SECTION (read whole / by leaf) below cached consumers: what the
+    # caller writes under the overridden leaves, or whether it supplies the section at all, splits nothing
+    SEC, SX, SY = gen.SEC, gen.SX, gen.SY
+    env = {1: _ds(100, [("option", K(SEC), None, None)]), 2: dict(derived=1, how="with_options", preset={SEC: {SX: 1}}),
+           3: _ds(101, [("dataset", 2), opt(Z, ("value", ("j", 0)))], effects=[("pstep", 110, [])]),
+           4: _ds(102, [("option", K(SEC, SX), None, None), ("option", K(SEC), None, None)], options={SEC: {SX: 2, SY: 3}}),
+           5: _ds(103, [("dataset", 4), ("with", True, {SEC: {SY: 0}}, ("dataset", 1))])}
+    out.append(("pinned section below consumers", dict(
+        ftable={}, env=env, exprs=[("dataset", 3), ("dataset", 5)],
+        ops=[ev(0, {SEC: {SX: 5}}), ev(0, {SEC: {SX: 5}}), ev(0, {SEC: {SX: 7}}), ev(0, {}), ev(0, {SEC: {SX: 1}}), ev(0, {NEVER[0]: 0, SEC: {SX: 7}}),
+             ev(0, {SEC: {SX: 7}, Z: 1}), ev(0, {SEC: {SX: 7, SY: 2}}), ev(0, {SEC: {SX: 1, SY: 2}}),
+             ev(1, {SEC: {SX: 5, SY: 6}}), ev(1, {SEC: {SY: 6}}), ev(1, {}), ev(1, {SEC: {SX: 9}})],
+        meta=[("fresh", None), ("repeat", 0)] + [("fresh", None)] * 11)))
     return out
 
 
 # ----------------------------------------------------------------------------- run / replay
 
+def shard_size(scns, budget=14000, cap=30):
+    """how many scenarios go into one generated Coq file: the largest count <= cap such that no block's
+    observation text exceeds the budget (coqc overflows its stack when it prints a vm_compute result of
+    about 30 kB; sized on the implementation's observation lines, which the model's mirror)"""
+    sizes = [sum(len(l) + 1 for l in core.run_impl(s)) for s in scns]
+    for n in range(cap, 1, -1):
+        if all(sum(sizes[k:k + n]) <= budget for k in range(0, len(sizes), n)):
+            return n
+    return 1
+
+
 def check_scenarios(ctx, scns, name):
-    impls, models, mism, stats = cp.correspondence(ctx, scns, name)
+    impls, models, mism, stats = cp.correspondence(ctx, scns, name, shard=shard_size(scns))
     # an operation outside the modelled universe ("unmod": tolerated line by line) may have stored a value
     # in labrea that the model did not store: from there on the two histories are not comparable
     index = {cp.dump_scn(s): k for k, s in enumerate(scns)}
@@ -734,7 +977,7 @@ def check_scenarios(ctx, scns, name):
             continue
         kept.append(mm)
     mism = kept
-    violations, tagged, totals = [], {}, dict(O1=0, O2=0, O3=0, O4=0, O5=0)
+    violations, tagged, totals = [], {}, dict(O1=0, O2=0, O3=0, O4=0, O5=0, O1_overridden_entries=0)
     distinct = set()
     for scn, il, ml in zip(scns, impls, models):
         fails, checks = oracle(scn, il)
@@ -759,7 +1002,7 @@ def check_scenarios(ctx, scns, name):
 
 
 def run(ctx):
-    n = 340 if ctx.quick else 3400
+    n = 400 if ctx.quick else 4000
     fixed = fixed_scenarios()
     # scenarios of the repaired defects that touch the anchored mechanisms (WithOptions.keys, with_options
     # derivatives, Option resolution): they must pass, and they make the reverse patches visible
@@ -777,11 +1020,14 @@ def run(ctx):
         for k, _ in s.get("meta") or []:
             kinds[k] = kinds.get(k, 0) + 1
     return {
-        "evaluations": stats["ops"] + sum(totals.values()),
+        "evaluations": stats["ops"] + sum(v for k, v in totals.items() if k in ("O1", "O2", "O3", "O4", "O5")),
         "distinct_nontrivial": len(distinct),
         "rule": "dataset DAGs (diamonds, a dependency used twice, chains, overloads, pre-set/default options, with_options derivatives, NoCache nodes, "
-                "effects, callbacks, random sub-expressions) x histories of 14 operations on one long-lived graph: fresh dictionaries, exact repeats, "
-                "repeats with never-mentioned keys added, repeats with the top-level order permuted, relevant changes; non-trivial = the history "
+                "effects, callbacks, random sub-expressions, dependencies pinned by a forced pre-set section / scalar / deep section (with_options, options=, "
+                "forced WithOptions node) read whole or by leaf below one or two cached consumers, bodies returning None / falsy constants, sinks kept for "
+                "their effect) x histories of 16 operations on one long-lived graph: fresh dictionaries, exact repeats, "
+                "repeats with never-mentioned keys added, repeats with the top-level order permuted, relevant changes, repeats in which the caller "
+                "supplies / omits / changes the entries a forced pre-set overrides; non-trivial = the history "
                 "contains at least one storing miss and at least one cache hit; distinct by hash of the scenario",
         "samples": [dict(env=repr(s["env"])[:400], first_ops=[repr(o)[:140] for o in s["ops"][:3]], observed=il[:3]) for s, il in list(zip(scns, impls))[:3]],
         "traces_validated_against_impl": stats["ops"],
@@ -789,15 +1035,36 @@ def run(ctx):
         "violations": violations,
         "known": [],
         "distribution": dict(stats, oracle_checks=totals, op_kinds=kinds, scenarios=len(scns), fixed=[n for n, _ in fixed],
+                             scenarios_with_constant_bodies=sum(1 for s in scns if any(d[0] == "const" and any(
+                                 e.get("fid") == f for e in s["env"].values()) for f, d in s["ftable"].items())),
+                             scenarios_with_none_bodies=sum(1 for s in scns if any(d == ("const", ("j", None)) and any(
+                                 e.get("fid") == f for e in s["env"].values()) for f, d in s["ftable"].items())),
+                             scenarios_with_forced_section_presets=sum(1 for s in scns if forced_section_presets(s)),
                              oracle_failures_tagged=tagged, oracle_failures_on_other_properties_witnesses=wit),
         "exhaustive": False,
         "assumptions": ["user code is deterministic and total on the values it is given; bodies/effects are the harness's counting functions",
                         "'the options a dataset depends on' is measured per evaluation as the top-level option names a cache-free evaluation of a fresh "
-                        "copy looks up (recorded inside confectioner's lookup functions), with a pre-set scalar overriding the caller's value",
+                        "copy looks up (recorded inside confectioner's lookup functions, in evaluation order), with a pre-set scalar overriding the caller's value; "
+                        "a caller's entry counts as overridden when every lookup under its name ran below exactly one pre-set layer mentioning the name "
+                        "(the WithOptions objects whose public evaluate() is on the stack, recorded by wrapping it), that layer is forced, and the answer "
+                        "is the value the layer fixes for the looked-up key; everywhere else (default layers, nested layers on one name, partly merged "
+                        "sections) the caller's whole entry stays part of the assignment, as labrea's fingerprint keeps it",
                         "nested key order inside a section is not permuted (the fingerprint dumps sections in insertion order)"],
         "trusted_base": ["confectioner (mix / get_dotted_key / resolve) and CPython json/dict are modelled (Model/Base.v, Model/Template.v), validated by this correspondence run",
                          "the counting oracle reads the call log of harness/core.py's World (bodies, effects, recording MemoryCache subclasses)"],
     }
+
+
+def forced_section_presets(scn):
+    """forced pre-set dictionaries of the scenario that fix a section"""
+    out = []
+    for d in scn["env"].values():
+        for p in ([d.get("options")] if d.get("options") else []) + ([d["preset"]] if d.get("derived") is not None and d["how"] == "with_options" else []):
+            out.append(p)
+    for t in cp.sub_exprs([scn["exprs"], [d.get("kwargs", []) for d in scn["env"].values()]]):
+        if t and t[0] == "with" and t[1]:
+            out.append(t[2])
+    return [p for p in out if any(isinstance(v, dict) for v in p.values())]
 
 
 def replay(ctx, payload):
